@@ -233,6 +233,7 @@ func main() {
 	flag.Parse()
 
 	debug.SetGCPercent(200)
+	initTypeMasks()
 	installHook()
 	racePath := os.Getenv("SIM_RACE_LOG")
 	_ = runtime.NumCPU
